@@ -30,6 +30,7 @@ def parse_frames(proto, stream):
 class PROP(Prop):
     id = "C16"
     profiles = ["debug"]
+    shard_min = 8
     rule = ("a call future dropped at EVERY poll index it reaches (pending points in the write, flush and read phases), for write granularities "
             "{1,3,all} x pending patterns, with and without a late reply to the abandoned request, followed by one or two normal exchanges; TCP and "
             "RTU; the synchronous client with a timeout against silent / slow / prompt scripted peers is explored by ./check C17's harness ops "
@@ -77,10 +78,54 @@ class PROP(Prop):
                                         evs.append("d" + good.hex())
                                         ops.append(cligen.call_op(reqj, R=",".join(evs)))
                                     cs.append(Case(cligen.cli_line(proto, slave, ops), {"proto": proto, "drop": drop, "npend": npend, "late": late, "exp": exp, "slave": slave}))
+        sync_cases = []
+        # synchronous client with a timeout against prompt / slow / silent peers (real loopback TCP, real pty)
+        for proto in ("tcp", "rtu"):
+            for rep in range(3 if tier == "quick" else 15):
+                for scen in (["prompt"], ["silent", "prompt"], ["slow_ok", "prompt"], ["silent", "silent", "prompt"], ["late", "prompt", "prompt"]):
+                    slave = rng.randrange(1, 248)
+                    ops, exp = [], []
+                    for i, sc in enumerate(scen):
+                        val = rng.randrange(65536)
+                        req = ("RHR", rng.randrange(65536), 1)
+                        fr = cligen.frame(proto, i, slave, mb.spec_rsp_pdu(("RHR", [val]))).hex()
+                        if sc == "prompt":
+                            ops.append("call %s r%s" % (mb.show_req(req), fr)); exp.append("OK:RHR:%d" % val)
+                        elif sc == "silent":
+                            ops.append("call %s s" % mb.show_req(req)); exp.append("T:TimedOut")
+                        elif sc == "slow_ok":
+                            ops.append("call %s w60:%s" % (mb.show_req(req), fr)); exp.append("OK:RHR:%d" % val)
+                        elif sc == "late":
+                            ops.append("call %s w450:%s" % (mb.show_req(req), fr)); exp.append("T:TimedOut")
+                    if "late" in scen:
+                        # the late reply is what the next call reads first
+                        exp[1] = "late"; exp[2] = "any"
+                    sync_cases.append(Case("SYNC %s 300 %d %s" % (proto, slave, " ; ".join(ops)), {"proto": proto, "sync": True, "exp": exp, "scen": scen}))
+        # spread the slow live cases evenly over the shards
+        step = max(1, len(cs) // (len(sync_cases) + 1))
+        for i, sc in enumerate(sync_cases):
+            cs.insert(min(len(cs), (i + 1) * step + i), sc)
         return cs
 
     def oracle(self, c):
         m = c.meta
+        if m.get("sync"):
+            r = c.impl or ""
+            if "PANIC" in r or r.startswith("CONNECT") or r.startswith("ERR") or "NORESULT" in r or "CRASH" in r:
+                return "sync client failure: %s" % r[:80]
+            if "timing_ok=0" in r:
+                return "synchronous call blocked far beyond its timeout"
+            rs = [x.split(" rx=")[0] for x in r.split(" ; ")[:-1]]
+            for i, (got, want) in enumerate(zip(rs, m["exp"])):
+                if want == "any":
+                    continue
+                if want == "late":
+                    if got.startswith("OK:") and m["proto"] == "tcp":
+                        return "late reply to the timed-out request returned as success: %s" % got
+                    continue
+                if got != want:
+                    return "synchronous call %d (%s): %s, want %s" % (i, m["scen"][i], got[:60], want)
+            return None
         rs = cligen.split_results(c.impl)
         if len(rs) != 3:
             return "result count: %s" % (c.impl or "")[:80]
@@ -113,10 +158,13 @@ class PROP(Prop):
         return None
 
     def nontrivial(self, c):
-        return (c.impl or "").startswith("ABANDONED")
+        return (c.impl or "").startswith("ABANDONED") or bool(c.meta.get("sync"))
 
     def distribution(self, cases):
         d = {"abandoned": 0, "completed": 0}
         for c in cases:
+            if c.meta.get("sync"):
+                d["sync"] = d.get("sync", 0) + 1
+                continue
             d["abandoned" if (c.impl or "").startswith("ABANDONED") else "completed"] += 1
         return d
